@@ -308,6 +308,9 @@ type SeqResp struct {
 	// Blowup > 0: every (non-empty) transaction is repeated until it is at least this many bytes long when
 	// the batch is handed out (megabyte batches from a short description).
 	Blowup int `json:"blowup,omitempty"`
+	// Many > 1: the transaction list is handed out Many times over, each copy of a transaction with a
+	// running number appended (batches of thousands of distinct transactions from a short description).
+	Many int `json:"many,omitempty"`
 }
 
 // EffTxs is the transaction list the response hands out.
@@ -318,6 +321,15 @@ func (r SeqResp) EffTxs() [][]byte {
 		if r.Blowup > 0 && len(tx) > 0 && len(tx) < r.Blowup {
 			txs[i] = bytes.Repeat(tx, (r.Blowup+len(tx)-1)/len(tx))
 		}
+	}
+	if r.Many > 1 && len(txs) > 0 {
+		out := make([][]byte, 0, len(txs)*r.Many)
+		for k := 0; k < r.Many; k++ {
+			for _, tx := range txs {
+				out = append(out, append(append([]byte(nil), tx...), []byte(fmt.Sprintf("#%d", k))...))
+			}
+		}
+		return out
 	}
 	return txs
 }
